@@ -47,6 +47,7 @@ type Engine struct {
 	curFn   string
 	verbose bool
 	forceMerge bool
+	elemPtrs   map[string]*elemPtr // element pointers (&s[i]) by reference name
 	inGoStmt       bool         // the call being evaluated is the operand of a go statement
 	sharedLoopVars bool         // go.mod language version < 1.22: one variable per loop
 	loopVars       []*types.Var // loop variables of the loops being executed (innermost last)
